@@ -358,6 +358,43 @@ def rule_attach(chk):
                 fail="the serializer attached to the message is not the one passed to write")
 
 
+def rule_wiring(chk):
+    """Field.serialize applies the field's serializer once; ActionType hands its own
+    serializers and type to the action; each message kind gets the serializer built
+    from its own field list."""
+    ctx = chk.ctx
+    fs = ctx.func("_validation", "Field.serialize")
+    cfg = ctx.cfg(fs)
+    calls = [(n, c) for n in cfg.live for c, m in calls_in_node(n) if common.is_self_attr(c.func, "_serializer")]
+    rng = cfg.count_range(cfg.entry, [cfg.exit], lambda x: sum(1 for n, c in calls if n is x))
+    okf = rng == (1, 1) and all(len(c.args) == 1 and isinstance(c.args[0], ast.Name) and c.args[0].id == fs.params[1] for n, c in calls) \
+        and all(any(r.ast.value is c for n, c in calls) for r in common.returns_of(cfg)) and not [x for x in cfg.live for c, m in calls_in_node(x) if (x, c) not in calls and c not in [cc for _, cc in calls]]
+    chk.req(okf, "C13.once", "Field.serialize:serializer-applied-once", chk.where(fs), good="return self._serializer(input)", fail="Field.serialize does not apply the field's serializer exactly once to the value and return the result")
+    at = ctx.func("_validation", "ActionType.__init__")
+    okm = False
+    for n in iter_own_nodes(at.node):
+        if isinstance(n, ast.Call) and {k.arg for k in n.keywords} >= {"start", "success", "failure"}:
+            kw = {k.arg: k.value for k in n.keywords}
+            okm = all(isinstance(kw[a], ast.Call) and kw[a].args and isinstance(kw[a].args[0], ast.Name) and kw[a].args[0].id == b
+                      for a, b in (("start", "startFields"), ("success", "successFields"), ("failure", "failureFields")))
+    chk.req(okm, "C13.attach", "ActionType.__init__:each-kind-gets-its-own-field-list", chk.where(at), good="start/success/failure serializers built from startFields/successFields/failureFields",
+            fail="the start/success/failure serializers are not built from their own field lists")
+    for q, callee in (("ActionType.__call__", "_start_action"), ("ActionType.as_task", "_startTask")):
+        f = ctx.func("_validation", q)
+        okc = False
+        for n in iter_own_nodes(f.node):
+            if isinstance(n, ast.Call) and common.is_self_attr(n.func, callee) and len(n.args) == 3:
+                okc = isinstance(n.args[0], ast.Name) and n.args[0].id == f.params[1] and common.is_self_attr(n.args[1], "action_type") and common.is_self_attr(n.args[2], "_serializers") \
+                    and any(k.arg is None and isinstance(k.value, ast.Name) and k.value.id == f.node.args.kwarg.arg for k in n.keywords)
+        chk.req(okc, "C13.attach", "%s:passes-own-type-and-serializers" % q, chk.where(f), good="(logger, self.action_type, self._serializers, **fields)",
+                fail="%s does not start the action with its own action_type and serializers" % q)
+    st = {"_start_action": "start_action", "_startTask": "startTask"}
+    atc = ctx.cls("_validation", "ActionType")
+    okh = all(unparse(atc.attrs.get(k, ast.Constant(value=None))) == "staticmethod(%s)" % v for k, v in st.items())
+    chk.req(okh, "C13.attach", "ActionType:start-hooks-are-start_action/startTask", chk.where(atc), good="_start_action = staticmethod(start_action); _startTask = staticmethod(startTask)",
+            fail="ActionType's start hooks are not start_action / startTask")
+
+
 def rule_field_guard(chk):
     """Justifies the receiver-type convention `field -> Field` (sa/callgraph.py)."""
     ctx = chk.ctx
@@ -375,4 +412,5 @@ def run(chk):
     rule_once(chk)
     rule_fail(chk)
     rule_attach(chk)
+    rule_wiring(chk)
     rule_field_guard(chk)
